@@ -290,6 +290,8 @@ def tsat(p, bounds = False):
         def f(t):
             # fsolve passes a one-element array, which math.exp() in sat() does not accept
             if isinstance(t, Iterable): t = t[0]
+            # keep the iterate inside the range over which sat() is defined
+            t = min(max(t, 0.01), 500.0)
             return sat(t) - p
         from math import log
         t0 = max(4606.0 / (24.02 - log(p)) - 273.15, 5.0) # starting estimate
